@@ -228,10 +228,35 @@ type Inst struct {
 	// own its deferred groups need not be started, so the invocations may be a sub-multiset
 	// of the plain execution's
 	DeferredMayBeSkipped bool
+	// VarsBefore / VarsAfter: the request's variables as JSON before and after execution
+	VarsBefore, VarsAfter string
 }
 
 func (s *Shared) NewInst(c Case, doc *ast.QueryDocument) *Inst {
+	// every execution gets its own copy of the variables: code under test that writes into
+	// them must not leak from one explored execution into the next (replays must reproduce)
+	if c.Op.Vars != nil {
+		c.Op.Vars = deepCopy(c.Op.Vars).(map[string]any)
+	}
 	return &Inst{S: s, C: c, Doc: doc}
+}
+
+func deepCopy(v any) any {
+	switch x := v.(type) {
+	case map[string]any:
+		m := make(map[string]any, len(x))
+		for k, e := range x {
+			m[k] = deepCopy(e)
+		}
+		return m
+	case []any:
+		l := make([]any, len(x))
+		for i, e := range x {
+			l[i] = deepCopy(e)
+		}
+		return l
+	}
+	return v
 }
 
 func (in *Inst) Body() {
@@ -255,6 +280,14 @@ func (in *Inst) Body() {
 			in.Env.mu.Unlock()
 			return fmt.Errorf("PANIC:%v", err)
 		})
+	}
+	if in.C.Op.Vars != nil {
+		b, _ := json.Marshal(in.C.Op.Vars)
+		in.VarsBefore = string(b)
+		defer func() {
+			b, _ := json.Marshal(in.C.Op.Vars)
+			in.VarsAfter = string(b)
+		}()
 	}
 	oc, errs := ex.CreateOperationContext(ctx, &graphql.RawParams{Query: in.C.Op.Text, Variables: in.C.Op.Vars})
 	if len(errs) > 0 {
@@ -427,6 +460,9 @@ func (in *Inst) CheckSemantics(x *explore.Exec) (string, string) {
 		return "horizon", "execution did not finish within the step horizon"
 	}
 	msg := in.compareRef(Quirks{})
+	if msg == "" && in.VarsBefore != in.VarsAfter {
+		return "request-variables-modified", fmt.Sprintf("the variables of the request were changed by its execution:\n  before %s\n  after  %s", in.VarsBefore, in.VarsAfter)
+	}
 	if msg == "" {
 		return "", ""
 	}
